@@ -57,7 +57,8 @@ def gen(rs, tier, index):
                  if w <= 3 and (inside(nd) if mode == 'self' else not inside(nd))]
             if c:
                 en = rng.choice(c)
-        gd[g] = {'name': 'clk_' + g.replace('/', '_'), 'en': en,
+        # the same gated sub-block instantiated twice gives two drivers with one name: names are not unique
+        gd[g] = {'name': rng.choice(['gclk', 'clk_' + g.replace('/', '_')]), 'en': en,
                  'idiom': 'gatedclock' if (en and rng.random() < 0.3) else 'enable', 'mode': mode if en else 'none'}
     d['group_driver'] = gd
     order = list(d['order'])
